@@ -6,22 +6,29 @@ import SqlgrepModel.Model.Text
 `DecFloat.parseF64N` / `parseF64` (the model's `f64::from_str`, executed by the driver for every number text) against
 the grammar of `Spec/FloatGrammar.lean`:
 
-* `parseF64N_complete` : a text the grammar derives with denotation `v` is accepted, with the bits `bitsOf v`;
+* `parseF64N_complete` : a text the grammar (`FloatR`) derives with denotation `v` is accepted, with the bits `bitsOf v`;
 * `parseF64N_sound`    : an accepted text is derived by the grammar, and the answer is `bitsOf` of a denotation;
-* `parseF64_iff`       : both, for a text given as characters; `FloatD.unique_bits`: the answer is a function of the text;
-* `parseF64N_bytes_iff`: the same for a text given as bytes / code points below U+D800 (REAL column texts are UTF-8 bytes;
-  every character the grammar accepts is ASCII: `FloatD.ascii`).
+* `parseF64_iff_rust`  : both, for a text given as characters; `FloatR.unique_bits`: the answer is a function of the text;
+  `parseF64_iff` the same for the documented grammar `FloatD` under `ExpSmall`;
+* `parseF64N_iff(_rust)`, `parseF64N_utf8_iff(_rust)`: the same for a text given as bytes / code points below U+D800
+  (REAL column texts are UTF-8 bytes; every character the grammar accepts is ASCII: `FloatDV.ascii`).
 
 `bitsOf` says which REAL a denotation is: the decimal `(-1)^neg · mant · 10^exp` becomes `DecFloat.decToF64 neg mant exp`,
 the correctly rounded REAL (`Lemmas/DecFloat.lean`: `decToF64_nearest`, `_tie_even`, `_overflow_iff` — a decimal at or
 above `(2^54 − 1) · 2^970` is `inf`, as in Rust, not an error); `inf` / `nan` are the infinity and Rust's `f64::NAN`, with
 the sign bit of the text.
 
-Known deviation from Rust (outside every text this machinery generates): `dec2flt::parse::parse_scientific` stops
-accumulating exponent digits once the exponent has reached `0x10000`, whereas `ExpD` / `parseExp` use the exact value
-of the exponent digits. The two differ only when a mantissa of more than 65 536 digits meets an exponent of at least
-six digits (e.g. `0.` + 700 009 zeros + `1e700010` is exactly 1, Rust answers 0); for shorter texts a saturated exponent
-and the exact one both give `0` or `inf`.
+The exponent (observation N3 of DESIGN.md). `dec2flt::parse::parse_scientific` stops accumulating exponent digits once
+the accumulated magnitude has reached `0x10000` (`if exponent < 0x10000 { exponent = 10 * exponent + digit }`); the
+model's `parseExp` does the same (`capDigitsVal`), and the grammar comes in two readings of the exponent digits
+(`Spec/FloatGrammar.lean`): `FloatR` (Rust's capped accumulation, `rustExpVal`) and `FloatD` (the documented grammar,
+the mathematical value). The theorems of this file are about `FloatR` without any hypothesis; `floatR_iff_floatD` turns
+them into statements about `FloatD` for every text whose exponent digits' value is below 65 536 (`ExpSmall`, decidable
+on the text) — `parseF64_iff`, `parseF64N_iff`, `parseF64N_utf8_iff`; which texts are accepted never depends on the
+reading (`parseF64_none_iff`). The two readings differ observably only when a mantissa of ≈ 65 000 digits or more meets
+an exponent of at least 65 536: `0.` + 65 299 zeros + `1e655360` denotes 1e590060 (nearest REAL: inf), Rust reads the
+exponent 65 536 and answers 1e236 (harness case `capped-exponent` of the `f64parse` stream); for texts shorter than
+≈ 65 000 characters the capped exponent and the exact one both give `±0` or `±inf`.
 -/
 namespace Sqlgrep.DecFloat
 open Sqlgrep.FloatGrammar
@@ -62,6 +69,44 @@ theorem digitsVal_map_aux (s : List Char) (acc : Nat) :
 theorem digitsVal_map (s : List Char) : digitsVal (s.map Char.toNat) = JsonGrammar.digitsVal s :=
   digitsVal_map_aux s 0
 
+theorem capDigitsVal_map_aux (s : List Char) (acc : Nat) :
+    (s.map Char.toNat).foldl (fun acc c => if acc < expCap then acc * 10 + (c - 48) else acc) acc =
+      s.foldl (fun n c => if n < 65536 then 10 * n + (c.toNat - 0x30) else n) acc := by
+  induction s generalizing acc with
+  | nil => rfl
+  | cons c s ih =>
+    simp only [List.map_cons, List.foldl_cons]
+    rw [ih, Nat.mul_comm]; rfl
+
+/-- the model's capped accumulation over code points is the grammar's `rustExpVal` over characters -/
+theorem capDigitsVal_map (s : List Char) : capDigitsVal (s.map Char.toNat) = rustExpVal s :=
+  capDigitsVal_map_aux s 0
+
+theorem digitsFold_ge (s : List Char) (acc : Nat) :
+    acc ≤ s.foldl (fun n c => 10 * n + (c.toNat - 0x30)) acc := by
+  induction s generalizing acc with
+  | nil => exact Nat.le_refl _
+  | cons c s ih =>
+    simp only [List.foldl_cons]
+    exact Nat.le_trans (by omega) (ih _)
+
+theorem rustExpVal_eq_aux (s : List Char) (acc : Nat)
+    (h : s.foldl (fun n c => 10 * n + (c.toNat - 0x30)) acc < 65536) :
+    s.foldl (fun n c => if n < 65536 then 10 * n + (c.toNat - 0x30) else n) acc =
+      s.foldl (fun n c => 10 * n + (c.toNat - 0x30)) acc := by
+  induction s generalizing acc with
+  | nil => rfl
+  | cons c s ih =>
+    simp only [List.foldl_cons] at h ⊢
+    have h1 := digitsFold_ge s (10 * acc + (c.toNat - 0x30))
+    have hacc : acc < 65536 := by omega
+    rw [if_pos hacc]
+    exact ih _ h
+
+/-- **below the cap Rust's reading of the exponent digits is their value** -/
+theorem rustExpVal_eq {ds : List Char} (h : JsonGrammar.digitsVal ds < 65536) : rustExpVal ds = JsonGrammar.digitsVal ds :=
+  rustExpVal_eq_aux ds 0 h
+
 /-- a run of digits followed by nothing is spanned whole -/
 theorem spanDigits_all {ds : List Char} (h : Digits ds) : JsonGrammar.spanDigits ds = (ds, []) := by
   have := JsonGrammar.spanDigits_append ds [] h (by intro c t e; cases e)
@@ -91,8 +136,8 @@ theorem parseExp_cons (c : Nat) (rest : List Nat) :
     parseExp (c :: rest) =
       if c = 101 ∨ c = 69 then
         (if (spanDigits (signOf rest).2).1.isEmpty || !(spanDigits (signOf rest).2).2.isEmpty then none
-         else some (if (signOf rest).1 then -(digitsVal (spanDigits (signOf rest).2).1 : Int)
-                    else (digitsVal (spanDigits (signOf rest).2).1 : Int)))
+         else some (if (signOf rest).1 then -(capDigitsVal (spanDigits (signOf rest).2).1 : Int)
+                    else (capDigitsVal (spanDigits (signOf rest).2).1 : Int)))
       else none := by
   unfold parseExp
   by_cases h : c = 101 ∨ c = 69
@@ -201,7 +246,7 @@ theorem signOf_map {sg ds : List Char} {neg : Bool} (hs : SignD sg neg) (hd : Di
   | plus => rfl
   | minus => rfl
 
-theorem parseExp_complete {r : List Char} {ev : Int} (h : ExpD r ev) : parseExp (r.map Char.toNat) = some ev := by
+theorem parseExp_complete {r : List Char} {ev : Int} (h : ExpR r ev) : parseExp (r.map Char.toNat) = some ev := by
   cases h with
   | none => rfl
   | @some e sg ds neg he hs hd =>
@@ -217,9 +262,9 @@ theorem parseExp_complete {r : List Char} {ev : Int} (h : ExpD r ev) : parseExp 
       | nil => exact absurd rfl hd.1
       | cons _ _ => rfl
     simp only [this, List.map_nil, List.isEmpty_nil, Bool.not_true, Bool.or_self, Bool.false_eq_true, if_false,
-      digitsVal_map]
+      capDigitsVal_map]
 
-theorem parseExp_sound {r : List Char} {ev : Int} (h : parseExp (r.map Char.toNat) = some ev) : ExpD r ev := by
+theorem parseExp_sound {r : List Char} {ev : Int} (h : parseExp (r.map Char.toNat) = some ev) : ExpR r ev := by
   cases r with
   | nil =>
     simp only [List.map_nil, parseExp, Option.some.injEq] at h
@@ -234,7 +279,7 @@ theorem parseExp_sound {r : List Char} {ev : Int} (h : parseExp (r.map Char.toNa
         · exact Or.inr ((toNat_eq c 'E').1 hc)
       -- the digits after the optional sign
       have key : ∀ (neg : Bool) (sg ds : List Char), SignD sg neg → rest = sg ++ ds →
-          signOf (rest.map Char.toNat) = (neg, ds.map Char.toNat) → ExpD (c :: rest) ev := by
+          signOf (rest.map Char.toNat) = (neg, ds.map Char.toNat) → ExpR (c :: rest) ev := by
         intro neg sg ds hs hrest hso
         rw [hso] at h
         simp only [spanDigits_map] at h
@@ -251,7 +296,7 @@ theorem parseExp_sound {r : List Char} {ev : Int} (h : parseExp (r.map Char.toNa
             have := hsp.1; rw [hB, List.append_nil] at this; exact this
           have hd1 : Digits1 ds := ⟨by rw [hds]; exact hcond.1, by rw [hds]; exact hsp.2.1⟩
           simp only [Option.some.injEq] at h
-          rw [← hds, digitsVal_map] at h
+          rw [← hds, capDigitsVal_map] at h
           subst h; subst hrest
           exact .some he hs hd1
       cases rest with
@@ -267,11 +312,11 @@ theorem parseExp_sound {r : List Char} {ev : Int} (h : parseExp (r.map Char.toNa
             simp only [List.map_cons, signOf_cons, n1, n2, if_false]
     · rw [if_neg hc] at h; cases h
 
-theorem parseExp_iff (r : List Char) (ev : Int) : parseExp (r.map Char.toNat) = some ev ↔ ExpD r ev :=
+theorem parseExp_iff (r : List Char) (ev : Int) : parseExp (r.map Char.toNat) = some ev ↔ ExpR r ev :=
   ⟨parseExp_sound, parseExp_complete⟩
 
 /-- an exponent part does not start with a digit or a point -/
-theorem expD_head {e : List Char} {ev : Int} (h : ExpD e ev) :
+theorem expD_head {val : List Char → Nat} {e : List Char} {ev : Int} (h : ExpDV val e ev) :
     JsonGrammar.NoDigitAhead e ∧ ∀ c t, e = c :: t → c.toNat ≠ 46 := by
   cases h with
   | none => exact ⟨fun c t h => (by cases h), fun c t h => (by cases h)⟩
@@ -300,7 +345,7 @@ theorem map_isEmpty_false {ds : List Char} (h : ds ≠ []) : (ds.map Char.toNat)
   | nil => exact absurd rfl h
   | cons _ _ => rfl
 
-theorem numBody_complete (neg : Bool) {body : List Char} {m : Nat} {e : Int} (h : NumberD body m e) :
+theorem numBody_complete (neg : Bool) {body : List Char} {m : Nat} {e : Int} (h : NumberR body m e) :
     numBody neg (body.map Char.toNat) = some (decToF64 neg m e) := by
   cases h with
   | @int ip ex ev hip hex =>
@@ -328,7 +373,7 @@ theorem numBody_complete (neg : Bool) {body : List Char} {m : Nat} {e : Int} (h 
       parseExp_complete hex, Option.map_some, ← List.map_append, digitsVal_map, List.length_map]
 
 theorem numBody_sound (neg : Bool) {s : List Char} {b : Nat} (h : numBody neg (s.map Char.toNat) = some b) :
-    ∃ m e, NumberD s m e ∧ b = decToF64 neg m e := by
+    ∃ m e, NumberR s m e ∧ b = decToF64 neg m e := by
   have hsp := JsonGrammar.spanDigits_spec s
   unfold numBody at h
   simp only [spanDigits_map] at h
@@ -359,7 +404,7 @@ theorem numBody_sound (neg : Bool) {s : List Char} {b : Nat} (h : numBody neg (s
             | cons _ _ => exact Or.inr (by simp)
             | nil => simp at hcond
         refine ⟨_, _, ?_, h.symm⟩
-        have := NumberD.point hdip hdfp hne (parseExp_sound hx)
+        have := NumberDV.point hdip hdfp hne (parseExp_sound hx)
         rw [hs, ht]
         simpa using this
   · have hnp : ∀ c t, r1 = c :: t → c.toNat ≠ 46 := by
@@ -379,7 +424,7 @@ theorem numBody_sound (neg : Bool) {s : List Char} {b : Nat} (h : numBody neg (s
           | cons _ _ => simp
           | nil => simp at hcond
         refine ⟨_, _, ?_, h.symm⟩
-        have := NumberD.int ⟨hne, hdip⟩ (parseExp_sound hx)
+        have := NumberDV.int ⟨hne, hdip⟩ (parseExp_sound hx)
         rw [hs]
         simpa using this
 
@@ -430,7 +475,7 @@ theorem word_head {l : Char} {w s : List Char} (hl : Lower l) (h : WordCI (l :: 
   | cons h1 _ => exact ⟨_, _, rfl, by unfold LetterCI Lower at *; omega⟩
 
 /-- a `Number` starts with a digit or a point -/
-theorem numberD_head {body : List Char} {m : Nat} {e : Int} (h : NumberD body m e) :
+theorem numberD_head {val : List Char → Nat} {body : List Char} {m : Nat} {e : Int} (h : NumberDV val body m e) :
     ∃ c t, body = c :: t ∧ c.toNat ≤ 57 ∧ c.toNat ≠ 45 ∧ c.toNat ≠ 43 := by
   have dig : ∀ {c : Char}, Digit c → c.toNat ≤ 57 ∧ c.toNat ≠ 45 ∧ c.toNat ≠ 43 := by
     intro c hc; unfold Digit at hc; omega
@@ -459,7 +504,7 @@ theorem not_word_of_head {c : Char} {t : List Char} (hc : c.toNat ≤ 57) :
 
 /-- what `parseBody` accepts -/
 theorem parseBody_sound (neg : Bool) {s : List Char} {b : Nat} (h : parseBody neg (s.map Char.toNat) = some b) :
-    (∃ m e, NumberD s m e ∧ b = bitsOf (.dec neg m e)) ∨
+    (∃ m e, NumberR s m e ∧ b = bitsOf (.dec neg m e)) ∨
     ((WordCI ['i', 'n', 'f'] s ∨ WordCI ['i', 'n', 'f', 'i', 'n', 'i', 't', 'y'] s) ∧ b = bitsOf (.inf neg)) ∨
     (WordCI ['n', 'a', 'n'] s ∧ b = bitsOf (.nan neg)) := by
   rw [parseBody_eq] at h
@@ -476,7 +521,7 @@ theorem parseBody_sound (neg : Bool) {s : List Char} {b : Nat} (h : parseBody ne
       obtain ⟨m, e, hn, hb⟩ := numBody_sound neg h
       exact Or.inl ⟨m, e, hn, hb⟩
 
-theorem parseBody_number (neg : Bool) {body : List Char} {m : Nat} {e : Int} (h : NumberD body m e) :
+theorem parseBody_number (neg : Bool) {body : List Char} {m : Nat} {e : Int} (h : NumberR body m e) :
     parseBody neg (body.map Char.toNat) = some (decToF64 neg m e) := by
   obtain ⟨c, t, rfl, hc, _, _⟩ := numberD_head h
   have hw := not_word_of_head (t := t) hc
@@ -512,7 +557,7 @@ theorem parseF64N_sign {sg body : List Char} {neg : Bool} (hs : SignD sg neg)
   | minus => rfl
 
 /-- **completeness**: every text of the grammar is accepted, with the REAL of its denotation -/
-theorem parseF64N_complete {s : List Char} {v : FVal} (h : FloatD s v) : parseF64N (s.map Char.toNat) = some (bitsOf v) := by
+theorem parseF64N_complete {s : List Char} {v : FVal} (h : FloatR s v) : parseF64N (s.map Char.toNat) = some (bitsOf v) := by
   cases h with
   | number hs hn =>
     obtain ⟨c, t, hb, _, h1, h2⟩ := numberD_head hn
@@ -529,9 +574,9 @@ theorem parseF64N_complete {s : List Char} {v : FVal} (h : FloatD s v) : parseF6
 
 /-- **soundness**: an accepted text is a text of the grammar, and the answer is the REAL of a denotation -/
 theorem parseF64N_sound {s : List Char} {b : Nat} (h : parseF64N (s.map Char.toNat) = some b) :
-    ∃ v, FloatD s v ∧ bitsOf v = b := by
+    ∃ v, FloatR s v ∧ bitsOf v = b := by
   have key : ∀ (neg : Bool) (sg body : List Char), SignD sg neg → s = sg ++ body →
-      parseBody neg (body.map Char.toNat) = some b → ∃ v, FloatD s v ∧ bitsOf v = b := by
+      parseBody neg (body.map Char.toNat) = some b → ∃ v, FloatR s v ∧ bitsOf v = b := by
     intro neg sg body hs hsb hp
     subst hsb
     rcases parseBody_sound neg hp with ⟨m, e, hn, hb⟩ | ⟨hw, hb⟩ | ⟨hw, hb⟩
@@ -553,32 +598,158 @@ theorem parseF64N_sound {s : List Char} {b : Nat} (h : parseF64N (s.map Char.toN
         rw [if_neg n1, if_neg n2] at h
         exact key false [] (a :: t) .none rfl h
 
-/-- **`parseF64` decides the grammar of `f64::from_str`**: `Ok(b)` exactly when the text is a `Float` of the grammar
-with a denotation whose REAL is `b` -/
-theorem parseF64_iff (s : List Char) (b : Nat) : parseF64 s = some b ↔ ∃ v, FloatD s v ∧ bitsOf v = b := by
+/-- **`parseF64` decides the grammar of `f64::from_str` as Rust reads it** (`FloatR`: exponent digits accumulated with the
+cap): `Ok(b)` exactly when the text is a `Float` of the grammar with a denotation whose REAL is `b` -/
+theorem parseF64_iff_rust (s : List Char) (b : Nat) : parseF64 s = some b ↔ ∃ v, FloatR s v ∧ bitsOf v = b := by
   unfold parseF64
   constructor
   · exact parseF64N_sound
   · rintro ⟨v, hv, rfl⟩; exact parseF64N_complete hv
 
-/-- `Err` exactly when the grammar does not derive the text -/
+/-- the REAL is a function of the text: two denotations of one text have the same bits -/
+theorem FloatR.unique_bits {s : List Char} {v v' : FVal} (h : FloatR s v) (h' : FloatR s v') : bitsOf v = bitsOf v' := by
+  have a := (parseF64_iff_rust s _).2 ⟨v, h, rfl⟩
+  have b := (parseF64_iff_rust s _).2 ⟨v', h', rfl⟩
+  rw [a] at b; exact Option.some.inj b
+
+/-! ### the two readings of the exponent: `FloatR` (Rust) and `FloatD` (documented) -/
+
+theorem expDigits_skip (pre rest : List Char) (h : ∀ c ∈ pre, c ≠ 'e' ∧ c ≠ 'E') :
+    expDigits (pre ++ rest) = expDigits rest := by
+  induction pre with
+  | nil => rfl
+  | cons c pre ih =>
+    have hc := h c (List.mem_cons_self ..)
+    rw [List.cons_append, expDigits, if_neg (by rintro (h1 | h1); exact hc.1 h1; exact hc.2 h1)]
+    exact ih (fun x hx => h x (List.mem_cons_of_mem _ hx))
+
+theorem digit_not_e {c : Char} (h : Digit c) : c ≠ 'e' ∧ c ≠ 'E' := by
+  have := JsonGrammar.digit_ne_sign h
+  exact ⟨this.2.2.2.1, this.2.2.2.2⟩
+
+/-- after the exponent marker and the optional sign come the exponent digits -/
+theorem expDigits_exp {e : Char} {sg ds : List Char} {neg : Bool} (he : e = 'e' ∨ e = 'E') (hs : SignD sg neg)
+    (hd : Digits1 ds) : expDigits (e :: sg ++ ds) = ds := by
+  rw [List.cons_append, expDigits, if_pos he]
+  cases hs with
+  | plus => rfl
+  | minus => rfl
+  | none =>
+    obtain ⟨hne, hdig⟩ := hd
+    cases ds with
+    | nil => exact absurd rfl hne
+    | cons d t =>
+      have := JsonGrammar.digit_ne_sign (hdig d (List.mem_cons_self ..))
+      simp only [List.nil_append]
+      unfold dropSign
+      split
+      · rename_i h; cases h; exact absurd rfl this.2.1
+      · rename_i h; cases h; exact absurd rfl this.1
+      · rfl
+
+/-- an exponent part under another reading of its digits that agrees on them -/
+theorem expDV_change {val val' : List Char → Nat} {ex : List Char} {ev : Int} (h : ExpDV val ex ev)
+    (hv : val (expDigits ex) = val' (expDigits ex)) : ExpDV val' ex ev := by
+  cases h with
+  | none => exact .none
+  | @some e sg ds neg he hs hd =>
+    rw [expDigits_exp he hs hd] at hv
+    rw [hv]
+    exact .some he hs hd
+
+theorem numberDV_change {val val' : List Char → Nat} {body : List Char} {m : Nat} {e : Int} (h : NumberDV val body m e)
+    (hv : val (expDigits body) = val' (expDigits body)) : NumberDV val' body m e := by
+  cases h with
+  | @int ip ex ev hip hex =>
+    rw [expDigits_skip ip ex (fun c hc => digit_not_e (hip.2 c hc))] at hv
+    exact .int hip (expDV_change hex hv)
+  | @point ip fp ex ev hip hfp hne hex =>
+    have hpre : ∀ c ∈ ip ++ '.' :: fp, c ≠ 'e' ∧ c ≠ 'E' := by
+      intro c hc
+      simp only [List.mem_append, List.mem_cons] at hc
+      rcases hc with hc | rfl | hc
+      · exact digit_not_e (hip c hc)
+      · decide
+      · exact digit_not_e (hfp c hc)
+    have hb : ip ++ '.' :: fp ++ ex = (ip ++ '.' :: fp) ++ ex := by simp
+    rw [hb, expDigits_skip _ ex hpre] at hv
+    exact .point hip hfp hne (expDV_change hex hv)
+
+theorem signD_not_e {sg : List Char} {neg : Bool} (h : SignD sg neg) : ∀ c ∈ sg, c ≠ 'e' ∧ c ≠ 'E' := by
+  cases h <;> decide
+
+/-- **a derivation under another reading of the exponent digits that agrees on this text's exponent digits** -/
+theorem floatDV_change {val val' : List Char → Nat} {s : List Char} {v : FVal} (h : FloatDV val s v)
+    (hv : val (expDigits s) = val' (expDigits s)) : FloatDV val' s v := by
+  cases h with
+  | number hs hn =>
+    rw [expDigits_skip _ _ (signD_not_e hs)] at hv
+    exact .number hs (numberDV_change hn hv)
+  | inf hs hw => exact .inf hs hw
+  | infinity hs hw => exact .infinity hs hw
+  | nan hs hw => exact .nan hs hw
+
+theorem expDV_retext {val val' : List Char → Nat} {ex : List Char} {ev : Int} (h : ExpDV val ex ev) :
+    ∃ ev', ExpDV val' ex ev' := by
+  cases h with
+  | none => exact ⟨_, .none⟩
+  | some he hs hd => exact ⟨_, .some he hs hd⟩
+
+/-- which texts the grammar derives does not depend on the reading of the exponent digits -/
+theorem floatDV_retext {val val' : List Char → Nat} {s : List Char} {v : FVal} (h : FloatDV val s v) :
+    ∃ v', FloatDV val' s v' := by
+  cases h with
+  | number hs hn =>
+    cases hn with
+    | int hip hex => obtain ⟨ev', hex'⟩ := expDV_retext (val' := val') hex; exact ⟨_, .number hs (.int hip hex')⟩
+    | point hip hfp hne hex =>
+      obtain ⟨ev', hex'⟩ := expDV_retext (val' := val') hex; exact ⟨_, .number hs (.point hip hfp hne hex')⟩
+  | inf hs hw => exact ⟨_, .inf hs hw⟩
+  | infinity hs hw => exact ⟨_, .infinity hs hw⟩
+  | nan hs hw => exact ⟨_, .nan hs hw⟩
+
+/-- **the same texts**: Rust's grammar and the documented one derive the same texts -/
+theorem floatR_iff_floatD_text (s : List Char) : (∃ v, FloatR s v) ↔ ∃ v, FloatD s v :=
+  ⟨fun ⟨_, h⟩ => floatDV_retext h, fun ⟨_, h⟩ => floatDV_retext h⟩
+
+/-- **the same denotations when the exponent digits' value is below 65 536** (`ExpSmall`, decidable on the text) -/
+theorem floatR_iff_floatD {s : List Char} (h : ExpSmall s) (v : FVal) : FloatR s v ↔ FloatD s v :=
+  ⟨fun hr => floatDV_change hr (rustExpVal_eq h), fun hd => floatDV_change hd (rustExpVal_eq h).symm⟩
+
+/-- a text without `e` / `E` (every SQL number token, `inf`, `nan`, `12.5`) has no exponent digits -/
+theorem expSmall_of_no_e {s : List Char} (h : ∀ c ∈ s, c ≠ 'e' ∧ c ≠ 'E') : ExpSmall s := by
+  have := expDigits_skip s [] h
+  rw [List.append_nil] at this
+  unfold ExpSmall
+  rw [this]
+  decide
+
+/-- **`parseF64` decides the documented grammar of `f64::from_str`** on every text whose exponent digits' value is below
+65 536: `Ok(b)` exactly when the text is a `Float` of the grammar with a denotation whose REAL is `b` -/
+theorem parseF64_iff {s : List Char} (hs : ExpSmall s) (b : Nat) :
+    parseF64 s = some b ↔ ∃ v, FloatD s v ∧ bitsOf v = b := by
+  rw [parseF64_iff_rust]
+  exact ⟨fun ⟨v, hv, hb⟩ => ⟨v, (floatR_iff_floatD hs v).1 hv, hb⟩, fun ⟨v, hv, hb⟩ => ⟨v, (floatR_iff_floatD hs v).2 hv, hb⟩⟩
+
+/-- `Err` exactly when the grammar does not derive the text (for every text: acceptance does not look at the size of
+the exponent) -/
 theorem parseF64_none_iff (s : List Char) : parseF64 s = none ↔ ¬ ∃ v, FloatD s v := by
+  rw [← floatR_iff_floatD_text]
   constructor
   · rintro h ⟨v, hv⟩
-    have := (parseF64_iff s _).2 ⟨v, hv, rfl⟩
+    have := (parseF64_iff_rust s _).2 ⟨v, hv, rfl⟩
     rw [h] at this; cases this
   · intro h
     cases hp : parseF64 s with
     | none => rfl
     | some b =>
-      obtain ⟨v, hv, _⟩ := (parseF64_iff s b).1 hp
+      obtain ⟨v, hv, _⟩ := (parseF64_iff_rust s b).1 hp
       exact absurd ⟨v, hv⟩ h
 
-/-- the REAL is a function of the text: two denotations of one text have the same bits -/
-theorem FloatD.unique_bits {s : List Char} {v v' : FVal} (h : FloatD s v) (h' : FloatD s v') : bitsOf v = bitsOf v' := by
-  have a := (parseF64_iff s _).2 ⟨v, h, rfl⟩
-  have b := (parseF64_iff s _).2 ⟨v', h', rfl⟩
-  rw [a] at b; exact Option.some.inj b
+/-- the REAL is a function of the text (documented grammar, exponent below the cap) -/
+theorem FloatD.unique_bits {s : List Char} (hs : ExpSmall s) {v v' : FVal} (h : FloatD s v) (h' : FloatD s v') :
+    bitsOf v = bitsOf v' :=
+  FloatR.unique_bits ((floatR_iff_floatD hs v).2 h) ((floatR_iff_floatD hs v').2 h')
 
 /-! ### texts given as code points or as UTF-8 bytes -/
 
@@ -593,9 +764,14 @@ theorem map_toNat_ofNat (t : List Nat) (ht : ∀ c ∈ t, c < 0xD800) : (t.map C
       ih (fun c hc => ht c (List.mem_cons_of_mem _ hc))]
 
 /-- **`parseF64N` decides the grammar** for a text given as code points (or bytes) below the surrogates -/
-theorem parseF64N_iff (t : List Nat) (ht : ∀ c ∈ t, c < 0xD800) (b : Nat) :
+theorem parseF64N_iff_rust (t : List Nat) (ht : ∀ c ∈ t, c < 0xD800) (b : Nat) :
+    parseF64N t = some b ↔ ∃ v, FloatR (t.map Char.ofNat) v ∧ bitsOf v = b := by
+  rw [← parseF64_iff_rust]; unfold parseF64; rw [map_toNat_ofNat t ht]
+
+/-- … and the documented grammar, exponent below the cap -/
+theorem parseF64N_iff (t : List Nat) (ht : ∀ c ∈ t, c < 0xD800) (hs : ExpSmall (t.map Char.ofNat)) (b : Nat) :
     parseF64N t = some b ↔ ∃ v, FloatD (t.map Char.ofNat) v ∧ bitsOf v = b := by
-  rw [← parseF64_iff]; unfold parseF64; rw [map_toNat_ofNat t ht]
+  rw [← parseF64_iff hs]; unfold parseF64; rw [map_toNat_ofNat t ht]
 
 theorem digits_ascii {ds : List Char} (h : Digits ds) : ∀ c ∈ ds, c.toNat < 128 := by
   intro c hc; have := h c hc; unfold Digit at this; omega
@@ -603,7 +779,7 @@ theorem digits_ascii {ds : List Char} (h : Digits ds) : ∀ c ∈ ds, c.toNat < 
 theorem signD_ascii {sg : List Char} {neg : Bool} (h : SignD sg neg) : ∀ c ∈ sg, c.toNat < 128 := by
   cases h <;> decide
 
-theorem expD_ascii {e : List Char} {ev : Int} (h : ExpD e ev) : ∀ c ∈ e, c.toNat < 128 := by
+theorem expD_ascii {val : List Char → Nat} {e : List Char} {ev : Int} (h : ExpDV val e ev) : ∀ c ∈ e, c.toNat < 128 := by
   cases h with
   | none => intro c hc; cases hc
   | some he hs hd =>
@@ -614,7 +790,7 @@ theorem expD_ascii {e : List Char} {ev : Int} (h : ExpD e ev) : ∀ c ∈ e, c.t
     · exact signD_ascii hs c hc
     · exact digits_ascii hd.2 c hc
 
-theorem numberD_ascii {s : List Char} {m : Nat} {e : Int} (h : NumberD s m e) : ∀ c ∈ s, c.toNat < 128 := by
+theorem numberD_ascii {val : List Char → Nat} {s : List Char} {m : Nat} {e : Int} (h : NumberDV val s m e) : ∀ c ∈ s, c.toNat < 128 := by
   cases h with
   | int hip hex =>
     intro c hc
@@ -641,7 +817,7 @@ theorem wordCI_ascii {w s : List Char} (hw : ∀ l ∈ w, Lower l) (h : WordCI w
     · exact ih (fun y hy => hw y (List.mem_cons_of_mem _ hy)) x hx
 
 /-- every character of a text of the grammar is ASCII -/
-theorem FloatD.ascii {s : List Char} {v : FVal} (h : FloatD s v) : ∀ c ∈ s, c.toNat < 128 := by
+theorem FloatDV.ascii {val : List Char → Nat} {s : List Char} {v : FVal} (h : FloatDV val s v) : ∀ c ∈ s, c.toNat < 128 := by
   intro c hc
   cases h with
   | number hs hn =>
@@ -729,26 +905,119 @@ theorem map_ofNat_toNat (cs : List Char) : cs.map (Char.ofNat ∘ Char.toNat) = 
 
 /-- **a REAL text as UTF-8 bytes** (what a capture group, a split field or a CONVERTed JSON string hands to
 `f64::from_str`): the bytes of the text `cs` are accepted with the answer `b` exactly when `cs` is a `Float` of the
-grammar with a denotation whose REAL is `b` -/
-theorem parseF64N_utf8_iff (cs : List Char) (b : Nat) :
-    parseF64N (Utf8.encode cs) = some b ↔ ∃ v, FloatD cs v ∧ bitsOf v = b := by
+grammar — as Rust reads the exponent — with a denotation whose REAL is `b` -/
+theorem parseF64N_utf8_iff_rust (cs : List Char) (b : Nat) :
+    parseF64N (Utf8.encode cs) = some b ↔ ∃ v, FloatR cs v ∧ bitsOf v = b := by
   constructor
   · intro h
     have hbytes : ∀ c ∈ Utf8.encode cs, c < 0xD800 := by
       intro c hc
       have := encode_byte_lt cs c hc
       omega
-    obtain ⟨v, hv, hb⟩ := (parseF64N_iff _ hbytes b).1 h
+    obtain ⟨v, hv, hb⟩ := (parseF64N_iff_rust _ hbytes b).1 h
     have hasc : ∀ c ∈ Utf8.encode cs, c < 128 := by
       intro c hc
-      have := FloatD.ascii hv (Char.ofNat c) (List.mem_map.2 ⟨c, hc, rfl⟩)
+      have := FloatDV.ascii hv (Char.ofNat c) (List.mem_map.2 ⟨c, hc, rfl⟩)
       rwa [toNat_ofNat_of_lt (hbytes c hc)] at this
     have hcs := ascii_of_encode cs hasc
     rw [encode_ascii' cs hcs, List.map_map] at hv
     rw [map_ofNat_toNat] at hv
     exact ⟨v, hv, hb⟩
   · rintro ⟨v, hv, rfl⟩
-    rw [encode_ascii' cs (FloatD.ascii hv)]
+    rw [encode_ascii' cs (FloatDV.ascii hv)]
     exact parseF64N_complete hv
+
+/-- … and the documented grammar for a text whose exponent digits' value is below 65 536 -/
+theorem parseF64N_utf8_iff (cs : List Char) (hs : ExpSmall cs) (b : Nat) :
+    parseF64N (Utf8.encode cs) = some b ↔ ∃ v, FloatD cs v ∧ bitsOf v = b := by
+  rw [parseF64N_utf8_iff_rust]
+  exact ⟨fun ⟨v, hv, hb⟩ => ⟨v, (floatR_iff_floatD hs v).1 hv, hb⟩, fun ⟨v, hv, hb⟩ => ⟨v, (floatR_iff_floatD hs v).2 hv, hb⟩⟩
+
+/-- bytes are rejected exactly when the text is not a `Float` of the grammar (any exponent) -/
+theorem parseF64N_utf8_none_iff (cs : List Char) : parseF64N (Utf8.encode cs) = none ↔ ¬ ∃ v, FloatD cs v := by
+  rw [← floatR_iff_floatD_text]
+  constructor
+  · rintro h ⟨v, hv⟩
+    have := (parseF64N_utf8_iff_rust cs _).2 ⟨v, hv, rfl⟩
+    rw [h] at this; cases this
+  · intro h
+    cases hp : parseF64N (Utf8.encode cs) with
+    | none => rfl
+    | some b =>
+      obtain ⟨v, hv, _⟩ := (parseF64N_utf8_iff_rust cs b).1 hp
+      exact absurd ⟨v, hv⟩ h
+
+/-! ### the cap, evaluated -/
+
+-- `655360` is read as 65 536 (accumulation stops at the first prefix at or above `0x10000`), `65535` and `065535` exactly
+example : rustExpVal "655360".toList = 65536 ∧ rustExpVal "65535".toList = 65535 ∧ rustExpVal "00065535".toList = 65535
+    ∧ rustExpVal "99999".toList = 99999 ∧ rustExpVal "999990".toList = 99999 ∧ rustExpVal "655359".toList = 655359 := by decide
+example : ExpSmall "1e65535".toList ∧ ¬ ExpSmall "1e65536".toList ∧ ExpSmall "-12.5".toList ∧ ExpSmall "1E-00400".toList
+    ∧ ExpSmall "infinity".toList := by decide
+-- short texts: the capped exponent and the exact one give the same REAL (inf / 0)
+example : parseF64 "1e655360".toList = some infBits ∧ parseF64 "1e-655360".toList = some 0
+    ∧ parseF64 "0e655360".toList = some 0 := by decide +kernel
+
+/-! ### the witness of the cap (audit 3, M2): `0.` + n zeros + `1e655360`
+
+The text denotes `10^(655360 − (n+1))`; Rust reads the exponent 65 536 and answers the REAL nearest to
+`10^(65536 − (n+1))`. For `n = 65 299`: 1e236 instead of inf. Proved for every `n` from the grammar theorems (no 65 KB
+text is evaluated); the harness case `capped-exponent` (`f64cases.rs`) runs the same text through `str::parse::<f64>()`. -/
+
+theorem digitsVal_zeros (n : Nat) (l : List Char) :
+    JsonGrammar.digitsVal (List.replicate n '0' ++ l) = JsonGrammar.digitsVal l := by
+  unfold JsonGrammar.digitsVal
+  induction n with
+  | zero => rfl
+  | succ n ih => rw [List.replicate_succ, List.cons_append, List.foldl_cons]; exact ih
+
+theorem digits_zeros_one (n : Nat) : Digits (List.replicate n '0' ++ ['1']) := by
+  intro c hc
+  rcases List.mem_append.1 hc with hc | hc
+  · rw [(List.mem_replicate.1 hc).2]; decide
+  · rw [List.mem_singleton.1 hc]; decide
+
+/-- the witness text: `0.` + `n` zeros + `1e655360` -/
+def capWitness (n : Nat) : List Char := ['0'] ++ '.' :: (List.replicate n '0' ++ ['1']) ++ "e655360".toList
+
+theorem capWitness_numberDV (val : List Char → Nat) (n : Nat) :
+    NumberDV val (capWitness n) 1 ((val "655360".toList : Int) - ((n + 1 : Nat) : Int)) := by
+  have hex : ExpDV val "e655360".toList (val "655360".toList : Int) :=
+    ExpDV.some (e := 'e') (sg := []) (ds := "655360".toList) (neg := false) (Or.inl rfl) .none (by decide)
+  have := NumberDV.point (val := val) (ip := ['0']) (fp := List.replicate n '0' ++ ['1']) (by decide) (digits_zeros_one n)
+    (Or.inl (by decide)) hex
+  have hm : JsonGrammar.digitsVal (['0'] ++ (List.replicate n '0' ++ ['1'])) = 1 := by
+    rw [show ['0'] ++ (List.replicate n '0' ++ ['1']) = List.replicate (n + 1) '0' ++ ['1'] from by
+      rw [List.replicate_succ]; rfl]
+    rw [digitsVal_zeros]; rfl
+  rw [hm] at this
+  simpa [capWitness] using this
+
+/-- **capped_exponent_witness.** Rust's `f64::from_str` (the model's `parseF64`) on `0.` + n zeros + `1e655360` answers
+the REAL of `10^(65536 − (n+1))`, whereas the text denotes `10^(655360 − (n+1))` in the documented grammar. -/
+theorem capped_exponent_witness (n : Nat) :
+    parseF64 (capWitness n) = some (decToF64 false 1 (65536 - ((n + 1 : Nat) : Int))) ∧
+    FloatD (capWitness n) (.dec false 1 (655360 - ((n + 1 : Nat) : Int))) ∧ ¬ ExpSmall (capWitness n) := by
+  refine ⟨?_, ?_, ?_⟩
+  · have h := FloatDV.number (val := rustExpVal) .none (capWitness_numberDV rustExpVal n)
+    have := (parseF64_iff_rust _ _).2 ⟨_, h, rfl⟩
+    rw [List.nil_append] at this
+    rw [this]; rfl
+  · have h := FloatDV.number (val := JsonGrammar.digitsVal) .none (capWitness_numberDV JsonGrammar.digitsVal n)
+    rw [List.nil_append] at h
+    exact h
+  · unfold ExpSmall
+    have hpre : ∀ c ∈ ['0'] ++ '.' :: (List.replicate n '0' ++ ['1']), c ≠ 'e' ∧ c ≠ 'E' := by
+      intro c hc
+      simp only [List.cons_append, List.nil_append, List.mem_cons, List.mem_append, List.mem_replicate, List.not_mem_nil,
+        or_false] at hc
+      rcases hc with rfl | rfl | ⟨_, rfl⟩ | rfl <;> decide
+    rw [capWitness, expDigits_skip _ _ hpre]
+    decide
+
+/-- the audit's text (`n = 65 299`, 65 310 characters): Rust answers 1e236 — the text denotes 1e590060, whose nearest
+REAL is inf -/
+example : decToF64 false 1 (65536 - ((65299 + 1 : Nat) : Int)) = 0x70ef736f9b3494e9
+    ∧ decToF64 false 1 (655360 - ((65299 + 1 : Nat) : Int)) = infBits := by decide +kernel
 
 end Sqlgrep.DecFloat
